@@ -51,7 +51,7 @@ Keys == {"QuantileExact", "QuantileExact_endpoint", "QuantileExact_upper_tail", 
          "VerifierRecomputes_recompute_rejected", "PerturbationRejected", "PerturbationRejected_selected", "PriorityIsMax", "PriorityIsMax_several_seats",
          "PerturbationRejected_tail", "PriorityIsMax_two_byte_seats", "SeqIssue", "SeqVerify_as_issued", "SeqVerify_perturbed",
          "OutputUniquePerKeyMessage", "OutputUnique_malleations_presented", "OutputUnique_malleations_accepted", "unique_transcription_rejected",
-         "QuantileExact_window", "Alias_calls",
+         "QuantileExact_window", "Alias_calls", "PriorityIsMax_argmax_on_multiple_of_256", "PriorityIsMax_argmax_searched",
          "skipped", "scan_steps", "max_bits"}
 
 Live(e) == "skip" \notin DOMAIN e /\ "panic" \notin DOMAIN e
@@ -120,6 +120,8 @@ JudgePlain(e) ==
    THEN [v |-> IF IsMax(e) THEN {} ELSE { <<"PriorityIsMax", {"computePriority"}>> },
          f |-> {"PriorityIsMax"} \cup (IF e.j >= 1 THEN {"PriorityIsMax_several_seats"} ELSE {})
                                  \cup (IF e.j >= 256 THEN {"PriorityIsMax_two_byte_seats"} ELSE {})]
+   ELSE IF e.ev = "argmax"      \* bookkeeping of the argmax stage (the verdict is the PriorityIsMax line before it)
+   THEN [v |-> {}, f |-> {"PriorityIsMax_argmax_searched"} \cup (IF e.argmax > 0 /\ e.argmax % 256 = 0 THEN {"PriorityIsMax_argmax_on_multiple_of_256"} ELSE {})]
    ELSE IF e.ev = "vrf_unique"
    THEN LET T == { e.tries[n] : n \in DOMAIN e.tries }
             mal == { t \in T : t.mal \notin {"evaluate", "transcribed_honest"} } IN
@@ -174,7 +176,7 @@ Step ==
               ELSE /\ pc' = "scan" /\ i' = 0 /\ den' = Den(e.q.w, e.q.b)
                    /\ term' = Term0(e.q.w, e.q.a, e.q.b) /\ cum' = Term0(e.q.w, e.q.a, e.q.b) /\ prev' = Zero
                    /\ UNCHANGED <<l, viol, fired, inexact, iss>>
-         ELSE /\ Finish(IF e.ev \in {"choose", "verify", "priority", "seq_issue", "seq_verify", "vrf_unique"} THEN JudgePlain(e) ELSE [v |-> {}, f |-> {}], 0, 0)
+         ELSE /\ Finish(IF e.ev \in {"choose", "verify", "priority", "seq_issue", "seq_verify", "vrf_unique", "argmax"} THEN JudgePlain(e) ELSE [v |-> {}, f |-> {}], 0, 0)
               /\ UNCHANGED inexact
    \/ /\ pc = "scan"
       /\ LET e == TraceLog[l] q == e.q IN
